@@ -675,7 +675,9 @@ class DropletTrackList(list):
         with h5py.File(path, "r") as fp:
             # load the actual droplet track data and iterate in the right order
             for key in display_progress(
-                sorted(fp.keys()), total=len(fp), enabled=progress
+                sorted(fp.keys(), key=lambda k: (len(k), k)),
+                total=len(fp),
+                enabled=progress,
             ):
                 dataset = fp[key]
                 obj.append(DropletTrack._from_hdf_dataset(dataset))
